@@ -51,6 +51,7 @@ pub mod c30;
 pub mod c31;
 pub mod c32;
 pub mod c33;
+pub mod c33i;
 pub mod c34;
 pub mod c35;
 pub mod c36;
